@@ -337,10 +337,58 @@ def histories(draw, tier="quick"):
             "then": draw(st.sampled_from([None, "fill", "fill_n", "add_right", "add_left", "iadd", "sum"]))}
 
 
+# ---------------------------------------------------------------------------------
+# adaptive histograms over different ranges: the sum carries the statistics of all values, once
+
+
+def check_adaptive_add(case, ctx: Ctx):
+    import physt
+
+    w = case["w"]
+    parts = [[float(x) for x in p] for p in case["parts"]]
+    hs = [ctx.call("h1(part, adaptive)", physt.h1, np.array(p), "fixed_width", bin_width=w, adaptive=True) for p in parts]
+    ref = Ref()
+    for p in parts:
+        for v in p:
+            ref.enter(v, 1)
+    how = case["how"]
+    if how == "add":
+        total = hs[0]
+        for h_ in hs[1:]:
+            total = ctx.call("a + b", lambda t=total, o=h_: t + o)
+    elif how == "iadd":
+        total = hs[0].copy()
+        for h_ in hs[1:]:
+            def f(t=total, o=h_):
+                t += o
+                return t
+            total = ctx.call("a += b", f)
+    else:
+        total = ctx.call("sum(parts)", sum, hs)
+    require(float(total.total) == ref.n, "adaptive_sum_total", f"{total.total} vs {ref.n}")
+    assert_stats(ctx, total, ref, f"{how} of {len(parts)} adaptive histograms")
+    ranges = [(min(p), max(p)) for p in parts if p]
+    ctx.label("how_" + how)
+    ctx.nt(len(ranges) >= 2 and any(a[1] + w < b[0] or b[1] + w < a[0] for a in ranges for b in ranges))
+
+
+@st.composite
+def adaptive_add_cases(draw, tier="quick"):
+    w = draw(st.sampled_from([1.0, 0.5, 2.0, 0.25]))
+    k = draw(st.integers(2, 4))
+    parts = []
+    for _ in range(k):
+        base = draw(st.integers(-20, 20)) * w
+        parts.append([base + x * w for x in draw(st.lists(st.sampled_from([0.0, 0.25, 0.5, 1.5, 2.75, 3.0]), min_size=1, max_size=6))])
+    return {"w": w, "parts": parts, "how": draw(st.sampled_from(["add", "iadd", "sum"]))}
+
+
 FINDINGS = []
 
 SUBS = [
+    Sub("adaptive_add", lambda tier: adaptive_add_cases(tier), check_adaptive_add, quick=300, thorough=2000),
     Sub("history", lambda tier: histories(tier), check_history, quick=1200, thorough=8000),
 ]
 
 RULE += ' Also: accumulation after the invalidating operation (fill, fill_n, + in both operand orders, +=, sum): everything stays NaN; emptied-copy stages restart the reference.'
+RULE += ' adaptive_add: 2-4 adaptive fixed-width histograms over different ranges combined by +, += or sum(); non-trivial = at least two parts whose ranges are more than a bin apart.'
